@@ -38,4 +38,25 @@ def sameVal (a b : Val) : Bool := a.charset == b.charset && a.bytes == b.bytes
 /-- C string view of a buffer: up to the first zero byte -/
 def cstr (b : List Byte) : List Byte := b.takeWhile (· != 0)
 
+
+/-- index of the `pos`-th value (`pos >= 1`) that is the text `t`, walking a list whose head has index `i` -/
+def walkS (t : List Byte) (step : Int) : List Val → Nat → Int → Option Int
+  | [], _, _ => none
+  | v :: rest, pos, i =>
+    if cmpEq v t then (if pos ≤ 1 then some i else walkS t step rest (pos - 1) (i + step))
+    else walkS t step rest pos (i + step)
+
+/-- "locate node by identifier" over the names of a node list: `pos > 0` the pos-th match from `start` on (the
+    current one counts), `pos < 0` the |pos|-th match before `start`, `pos = 0` the last node if it matches, else
+    the nearest match before it -/
+def locateS (vals : List Val) (start : Nat) (pos : Int) (t : List Byte) : Option Int :=
+  if start ≥ vals.length then none
+  else if pos > 0 then walkS t 1 (vals.drop start) pos.toNat start
+  else if pos = 0 then
+    let last := vals.length - 1
+    match vals[last]? with
+    | none => none
+    | some v => if cmpEq v t then some (last : Int) else walkS t (-1) (vals.take last).reverse 1 ((last : Int) - 1)
+  else walkS t (-1) (vals.take start).reverse (-pos).toNat ((start : Int) - 1)
+
 end Mpt.Ident
